@@ -366,6 +366,68 @@ def r01j(ctx, rep, rule="R01j"):
     rep.floor(rule, "compile-time reads of global values (macro lookup)", n, 1)
 
 
+def r01m(ctx, rep, rule="R01m"):
+    from .numeric import _base_chain
+    facts = ctx["facts"]
+    rep.rule(rule, "stack discipline of buffered operands: values taken off the machine stack with pop come off last-to-first, so a "
+             "buffer filled by successive pops and pushed back onto the stack must be replayed in reverse (Iterator::rev or "
+             "Vec::pop) — a forward replay hands the operands to the callee in reverse order. (No such buffer exists on the "
+             "pinned tree: apply shifts its leading arguments in place; the rule arms itself when one appears.)")
+    POP = (STACK + "pop", RUN + "pop")
+    n = 0
+    for p, f in sorted(facts.fns.items()):
+        if f.crate != "marwood" or not p.startswith("marwood::vm::") or "::tests::" in p:
+            continue
+        # buffers: Vec locals that receive a popped value through Vec::push
+        buffers = {}
+        for bb, t in f.calls():
+            c = callee(t) or ""
+            if c.startswith("std::vec::Vec") and c.endswith("::push") and len(t["args"]) == 2:
+                o = f.origin(t["args"][1])
+                for _ in range(4):
+                    if o[0] == "call" and ((callee(o[1]) or "").endswith(("::clone", "::unwrap")) or "Try>::branch" in (o[1].get("fnargs") or "")) and o[1]["args"]:
+                        o = f.origin(o[1]["args"][0])
+                    else:
+                        break
+                if o[0] == "call" and callee(o[1]) in POP:
+                    ch = _base_chain(f, t["args"][0])
+                    if ch:
+                        buffers[ch[-1]] = t
+        if not buffers:
+            continue
+        for bb, t in f.calls():
+            if callee(t) != STACK + "push" or len(t["args"]) < 2:
+                continue
+            o = f.origin(t["args"][1])
+            if not (o[0] == "call" and (callee(o[1]) or "").endswith("::next")):
+                continue
+            it = f.origin(o[1]["args"][0])
+            reversed_ = False
+            for _ in range(6):
+                if it[0] == "call" and it[1]["args"]:
+                    c = callee(it[1]) or ""
+                    if not c.endswith(("::into_iter", "::iter", "::iter_mut", "::rev", "::by_ref", "::drain", "::cloned", "::copied", "::peekable")):
+                        break
+                    if c.endswith("::rev"):
+                        reversed_ = True
+                    it = f.origin(it[1]["args"][0])
+                    continue
+                break
+            base = None
+            if it[0] in ("local", "arg"):
+                base = it[1]
+            elif it[0] == "call" and not it[1]["dest"]["p"]:
+                base = it[1]["dest"]["l"]      # the Vec itself is the result of its constructor call
+            if base in buffers:
+                n += 1
+                key = "%s|%s|replay" % (rule, f.short.rsplit("::", 1)[-1])
+                (rep.ok if reversed_ else rep.fail)(rule, key, "%s replays its buffer of popped operands in reverse" % f.short if reversed_ else
+                                                    "%s pops operands into a buffer and pushes them back in the order they were popped: the "
+                                                    "operands reach the callee reversed ((apply list 1 2 '(3)) gives (2 1 3))" % f.short, [t["loc"]])
+    if not n:
+        rep.ok(rule, "%s|none" % rule, "no function buffers popped operands and pushes them back (apply shifts in place)", nontrivial=False)
+
+
 def run(ctx, rep):
     r01a(ctx, rep)
     rep.rule("R01c", "CALL/TCALL twin agreement: the builtin, continuation and non-procedure sub-arms of the CallAcc and "
@@ -381,6 +443,7 @@ def run(ctx, rep):
     prelude.r01h(ctx, rep)
     r01i(ctx, rep)
     r01j(ctx, rep)
+    r01m(ctx, rep)
     from . import C02
     borrow(ctx, rep, "R01k", "lexical addressing is part of evaluation: C02's rules on the binding map order (R02c), the scan working on "
            "copies of the bound set (R02d), ENTER installing a per-activation environment (R02e) and load/store symmetry (R02b), "
